@@ -2,6 +2,26 @@
 // (self-validation) and the Gallina printer for translator T1.  Include after sym.hpp, before glm.
 #pragma once
 #include "sym.hpp"
+// SIMD mode (VT_SIMD): GLM's intrinsic kernels are traced.  The compiler's intrinsics headers are replaced by simd_shim.hpp and,
+// while GLM's headers are read, `float` names the tracing scalar, so that the specialisations GLM writes for `float`
+// (storage<4, float, true> = __m128, compute_*<4, float, Q, true>, glm_vec4_* ...) are the ones instantiated.
+#ifdef VT_SIMD
+#include <cassert>
+#include <cstddef>
+#include <cstdlib>
+#include <climits>
+#include <cfloat>
+#include <limits>
+#include <cmath>
+#include <functional>
+#include <type_traits>
+#include <sstream>
+#include <memory>
+#include <iostream>
+#include <utility>
+#include "simd_shim.hpp"
+#define float vt::sf32
+#endif
 #include <glm/detail/setup.hpp>
 namespace glm { namespace detail {
 	template<> struct is_int<vt::si32> { enum test { value = ~0 }; };
@@ -35,8 +55,12 @@ namespace glm { namespace detail {
 		GLM_FUNC_QUALIFIER static vt::Sym<K> call(vt::Sym<K> const& x, vt::Sym<K> const& y, vt::SymBool const& a) { return a ? y : x; }
 	};
 }}
+#ifdef VT_SIMD
+#undef float
+#endif
 #include <sstream>
 #include <memory>
+#include <fstream>
 
 namespace vt {
 
@@ -148,10 +172,18 @@ struct Reg { Reg(std::string n, std::function<void(Ctx<TraceFam>&)> t, std::func
 #define VT_CAT2(a, b) a##b
 #define VT_CAT(a, b) VT_CAT2(a, b)
 // ENTRY(name) { body using `c` and family `S` }
+#ifdef VT_SIMD
+// SIMD mode: the concrete side is another binary (the same entries built with the compiler's intrinsics, VT_GOLDEN_OUT)
+#define ENTRY(NAME) \
+	template<class S> static void VT_CAT(ent_, NAME)(vt::Ctx<S>& c); \
+	static vt::Reg VT_CAT(reg_, NAME)(#NAME, &VT_CAT(ent_, NAME)<vt::TraceFam>, std::function<void(vt::Ctx<vt::ConcFam>&)>()); \
+	template<class S> static void VT_CAT(ent_, NAME)(vt::Ctx<S>& c)
+#else
 #define ENTRY(NAME) \
 	template<class S> static void VT_CAT(ent_, NAME)(vt::Ctx<S>& c); \
 	static vt::Reg VT_CAT(reg_, NAME)(#NAME, &VT_CAT(ent_, NAME)<vt::TraceFam>, &VT_CAT(ent_, NAME)<vt::ConcFam>); \
 	template<class S> static void VT_CAT(ent_, NAME)(vt::Ctx<S>& c)
+#endif
 // register a templated entry  fn<S, args...>  under a runtime name
 #define REG_T(NAMESTR, FN, ...) vt::Reg(NAMESTR, &FN<vt::TraceFam, ##__VA_ARGS__>, &FN<vt::ConcFam, ##__VA_ARGS__>)
 
@@ -358,7 +390,15 @@ inline int run_all(char const* module_comment, std::ostream& out, std::ostream& 
 	out << "(* GENERATED by /verif/tools/trace from /repo's working tree -- do not edit. " << module_comment << " *)\n";
 	out << "Require Import ZArith List String.\nImport ListNotations.\nFrom GLMV Require Import Expr.\nLocal Open Scope Z_scope.\nLocal Open Scope string_scope.\n\n";
 	std::vector<std::string> names;
+	// golden files: the concrete side of the self-validation computed by another build of the same entries
+	std::ofstream gout; if (std::getenv("VT_GOLDEN_OUT")) gout.open(std::getenv("VT_GOLDEN_OUT"));
+	std::map<std::string, std::vector<Val> > gin;
+	if (std::getenv("VT_GOLDEN_IN")) { std::ifstream f(std::getenv("VT_GOLDEN_IN")); std::string line; while (std::getline(f, line)) { std::istringstream ls(line); std::string nm; int fl, t; ls >> nm >> fl >> t; std::vector<Val> vs; std::string tok; while (ls >> tok) { size_t c = tok.find(':'); vs.push_back(Val{(Kind)std::atoi(tok.substr(0, c).c_str()), std::strtoull(tok.substr(c + 1).c_str(), 0, 16)}); } gin[nm + " " + std::to_string(fl) + " " + std::to_string(t)] = vs; } }
 	for (Entry const& e : registry()) {
+		if (gout.is_open() && e.cc) for (int fl = 0; fl < 3; ++fl) if (e.flavours & (1 << fl)) for (int t = 0; t < trials; ++t) {
+			Ctx<ConcFam> cc; cc.seed = seed; cc.trial = t; cc.flavour = fl; e.cc(cc);
+			gout << e.name << " " << fl << " " << t; for (auto const& o : cc.outs) gout << " " << (int)o.val.k << ":" << std::hex << o.val.bits << std::dec; gout << "\n";
+		}
 		Graph& g = G(); g.reset_all(); g.tracing = true;
 		std::vector<PathRes> paths; bool more = true; std::string fatal;
 		while (more) {
@@ -387,12 +427,19 @@ inline int run_all(char const* module_comment, std::ostream& out, std::ostream& 
 			std::vector<uint64_t> mv; for (uint32_t o : leaf->outs) mv.push_back(I.ev(o));
 			if (!pre_ok) { ++st.skipped_pre; continue; }
 			if (I.undefined) { ++st.skipped_undef; continue; }
-			e.cc(cc); ++st.trials;
+			if (e.cc) e.cc(cc);
+			else { auto it = gin.find(e.name + " " + std::to_string(fl) + " " + std::to_string(t)); if (it != gin.end()) for (Val const& v : it->second) cc.outs.push_back(OutRec{false, 0, v}); }
+			++st.trials;
 			bool ok = cc.outs.size() == mv.size();
 			for (size_t i = 0; ok && i < mv.size(); ++i) { Node const& on = g.nodes[leaf->outs[i]]; Kind rk = (op_is_cmp(on.op) || on.op == ISNAN || on.op == ISINF || on.op == LNOT || on.op == LAND || on.op == LOR) ? KB : on.k; ok = bits_equal(cc.outs[i].val.k, cc.outs[i].val.bits, mv[i]) && cc.outs[i].val.k == rk;
 				// std::fmin / std::fmax of +0 and -0 may return either zero (and the compiler may fold the call differently in the two instantiations): with such a node in the graph, zeros of either sign agree
 				if (!ok && cc.outs[i].val.k == rk && (rk == F32 || rk == F64)) { bool fm = false; for (auto const& nd : g.nodes) if (nd.op == FMIN || nd.op == FMAX) { fm = true; break; }
-					bool zi = rk == F32 ? from_bits<float>(cc.outs[i].val.bits) == 0.0f : from_bits<double>(cc.outs[i].val.bits) == 0.0, zm = rk == F32 ? from_bits<float>(mv[i]) == 0.0f : from_bits<double>(mv[i]) == 0.0; if (fm && zi && zm) ok = true; } }
+					bool zi = rk == F32 ? from_bits<float>(cc.outs[i].val.bits) == 0.0f : from_bits<double>(cc.outs[i].val.bits) == 0.0, zm = rk == F32 ? from_bits<float>(mv[i]) == 0.0f : from_bits<double>(mv[i]) == 0.0; if (fm && zi && zm) ok = true;
+#ifdef VT_SIMD
+					// minps / maxps return their second operand when either is a NaN, std::fmin / fmax the other one: NaN behaviour of the SIMD min / max is outside the traced meaning
+					if (fm) for (auto const& nd : g.nodes) if (nd.op == VAR && nd.k == F32) { float iv = from_bits<float>(input_bits(F32, (int)nd.a, (int)nd.b, seed, t, fl)); if (iv != iv) ok = true; }
+#endif
+				} }
 			if (!ok) {
 				++st.mismatches;
 				log << "MISMATCH " << e.name << " flavour=" << fl << " trial=" << t << " seed=" << seed << " impl=[";
